@@ -101,22 +101,28 @@ def run(chk):
       'a name carried by several decision points (named point inside a multi-choice candidate) is not looked up by name',
       'literal values that parse as "i/n" are not generated',
       'float decisions are multiples of 0.1']
-  # 1. model: DnaOps keeps every handed-out DNA aligned (intended); the as-coded sibling swap does not
-  r = tlc.run('GenoViews', 'C12_ops.cfg', timeout=900)
+  # 1./2. TLC: DnaOps keeps every handed-out DNA aligned (intended); the as-coded sibling swap does not; export of
+  # the universe -- independent runs, started together
+  with geno.phase(chk, 'tlc_model_and_export'):
+    res = geno.tlc_jobs({
+        'intended': lambda: tlc.run('GenoViews', 'C12_ops.cfg', timeout=900, workers=4),
+        'ascoded': lambda: tlc.run('GenoViews', 'C12_ops_ascoded.cfg', timeout=900, workers=4, allow_violation=True),
+        'export': lambda: tlc.export_json('GenoViewsExport', cfg['export'], env={'SALT': str(chk.seed)}, timeout=900),
+    })
+  r = res['intended']
   chk.add_tlc(r)
   chk.notes['model_intended'] = r.summary()
   if not r.ok:
     raise tlc.TLCError(f'C12_ops.cfg: {r.violated} violated in the intended model:\n' + r.out[-3000:])
   chk.require(r.distinct > 100, f'vacuous: DnaOps explored only {r.distinct} states')
-  r2 = tlc.run('GenoViews', 'C12_ops_ascoded.cfg', timeout=900, allow_violation=True)
+  r2 = res['ascoded']
   chk.add_tlc(r2, count_states=False)
-  chk.notes['model_as_coded'] = dict(r2.summary(), note='Mirror = TRUE: Swap exchanges children without re-binding; '
-                                     'TLC is expected to violate OpsAligned (design-level counter-example, then '
-                                     'confirmed on the real mutators.Swap by the chains below)')
+  chk.notes['model_as_coded'] = dict(r2.summary(), note='Mirror = TRUE: Swap exchanges children without re-binding (the '
+                                     'code before fix 0a65530); TLC is expected to violate OpsAligned (design-level '
+                                     'counter-example; the chains below run the real mutators.Swap)')
   chk.require((not r2.ok) and r2.violated == 'OpsAligned',
               'the as-coded Swap model no longer violates OpsAligned: the model lost its sensitivity')
-  # 2. universe
-  entries, r3 = tlc.export_json('GenoViewsExport', cfg['export'], env={'SALT': str(chk.seed)}, timeout=900)
+  entries, r3 = res['export']
   chk.add_tlc(r3, count_states=False)
   chk.require(len(entries) >= 60, f'vacuous: only {len(entries)} specs exported')
   # 3. observe + laws
